@@ -179,6 +179,26 @@ func corpus1(w *world, o *hx.Out, k int) {
 	s.block(s.tx([]util.Uint160{u(2)}, xferNeo(u(2), u(0), all)))
 	s.block(s.tx([]util.Uint160{u(0)}, vote(u(0), cx.PublicKey())))
 	o.Count("corpus:voter-emptied-and-refilled")
+	// re-entrant receiver (seed C05-m8): the Wallet contract holds NEO, is armed and votes; the GAS reward of the vote
+	// is paid with a callback that transfers 1 NEO of the Wallet's own account away -- the account item of the vote must
+	// have been written before; then it changes its vote and revokes it the same way
+	s.block(s.tx([]util.Uint160{val}, xferNeo(val, wl, big64(500_000))))
+	for i := 0; i < 3; i++ {
+		s.block()
+	}
+	re := func(p *keys.PublicKey) *txSpec {
+		t := s.tx([]util.Uint160{u(1)}, &call{kind: kArm, src: wl, dst: u(2)},
+			&call{kind: kVote, src: wl, pub: p, via: &wl, nested: xferNeo(wl, u(2), big64(1))},
+			&call{kind: kDisarm, src: wl})
+		t.reentrant = true
+		return t
+	}
+	s.block(re(cx.PublicKey()))
+	s.block()
+	s.block(re(cx.PublicKey()))
+	s.block()
+	s.block(re(nil))
+	o.Count("corpus:reentrant-vote-reward")
 }
 
 // corpus2: the boundaries of the election. Committee of 3 (standby = candidates 0..2), 2 validators, two extra
